@@ -545,13 +545,24 @@ func entityLUBsRelated(a, b entityLUB) bool {
 // isEntityDescendant returns true if childType can be a descendant (member) of ancestorType.
 // This means childType lists ancestorType (directly or transitively) in its ParentTypes.
 func (v *Validator) isEntityDescendant(childType, ancestorType types.EntityType) bool {
+	return v.isEntityDescendantFrom(childType, ancestorType, map[types.EntityType]struct{}{})
+}
+
+// isEntityDescendantFrom is the depth-first search behind isEntityDescendant. The entity type
+// hierarchy may contain cycles (e.g. `entity Group in [Group]`), so every type is expanded at
+// most once: a type already in visited cannot lead to ancestorType by a path not yet explored.
+func (v *Validator) isEntityDescendantFrom(childType, ancestorType types.EntityType, visited map[types.EntityType]struct{}) bool {
+	if _, seen := visited[childType]; seen {
+		return false
+	}
+	visited[childType] = struct{}{}
 	// Entity types always exist in the schema (validated during scope checking).
 	entity := v.schema.Entities[childType]
 	for _, parent := range entity.ParentTypes {
 		if parent == ancestorType {
 			return true
 		}
-		if v.isEntityDescendant(parent, ancestorType) {
+		if v.isEntityDescendantFrom(parent, ancestorType, visited) {
 			return true
 		}
 	}
